@@ -4,12 +4,12 @@
 
 // failed check (assertion): assertion failed: r.rank(p) == exp
 #[test]
-fn kani_concrete_playback_rank9_n1_len37_1039687040980151639() {
+fn kani_concrete_playback_rank9_n1_len37_4963122954515816408() {
     let concrete_vals: Vec<Vec<u8>> = vec![
-        // 183794441420ul
-        vec![204, 156, 0, 203, 42, 0, 0, 0],
-        // 139ul
-        vec![139, 0, 0, 0, 0, 0, 0, 0],
+        // 1152640128351469547ul
+        vec![235, 255, 63, 252, 22, 0, 255, 15],
+        // 518ul
+        vec![6, 2, 0, 0, 0, 0, 0, 0],
     ];
     kani::concrete_playback_run(concrete_vals, crate::c01::q::rank9_n1_len37);
 }
